@@ -13,6 +13,7 @@ static int main_op_index(const TaskPlan &p) { for (size_t i = 0; i < p.ops.size(
 long find_min_lwork(const TaskPlan &plan, EnvSpec e, long hi, int *probes, const std::function<void(const EnvSpec &)> &note) {
     ExecCfg cfg; cfg.chk_structure = false; cfg.chk_identity = false; cfg.chk_residual = false; cfg.capture = false; cfg.chk_resolve_pure = false;
     int mi = main_op_index(plan);
+    e.garbage = G_ZERO; e.wsgarbage = G_ZERO; // probing only: clean fresh memory (see KF-zero-pivot)
     auto ok = [&](long lw) {
         e.lwork = lw; if (note) note(e); TaskPlan q = apply_env(plan, e);
         PlanRun pr = run_plan_single(q, cfg);
@@ -85,8 +86,12 @@ RunOutcome exec_C07(const Case &c) {
     PlanRun ref;
     int nonref_used = 0, user_used = 0, maxexp = 0; bool any_growth = false;
     std::ostringstream schedkey;
+    bool ref_singular = false;
     for (size_t k = 0; k < c.envs.size(); k++) {
-        const EnvSpec &e = c.envs[k];
+        EnvSpec e = c.envs[k];
+        // after an exactly-zero pivot the library reads never-written memory (known finding KF-zero-pivot): schedules of a
+        // singular input run with clean fresh memory only
+        if (ref_singular) { if (e.garbage != G_ZERO || e.wsgarbage != G_ZERO) out.stats["dirty_suppressed_singular"] += 1; e.garbage = G_ZERO; e.wsgarbage = G_ZERO; }
         TaskPlan q = apply_env(plan, e);
         PlanRun pr = run_plan_single(q, c07_cfg(k == 0));
         h.u64(pr.evhash);
@@ -105,6 +110,7 @@ RunOutcome exec_C07(const Case &c) {
         if (k == 0) {
             ref = std::move(pr);
             const OpResult &rr = ref.trace[mi];
+            ref_singular = (rr.cls == XC_SINGULAR);
             if (!ilu && rr.expansions > 0) out.violations.push_back({"reference-grew", "no-growth reference reported " + std::to_string(rr.expansions) + " expansions", "C07|reference-grew|" + mo.kind});
             if (rr.cls == XC_NOSPACE || rr.cls == XC_ABORT || rr.cls == XC_HANG) return out; // nothing to compare with
             // memory usage describes the factors actually returned (documented formula of *QuerySpace)
